@@ -16,6 +16,10 @@ def series(case):
     n, kind = case["n"], case["dkind"]
     if kind == "const":
         return np.full(n, 3.0, dtype=np.float32)
+    if kind == "zeros":
+        return np.zeros(n, dtype=np.float32)
+    if kind == "alt":
+        return np.where(np.arange(n) % 2 == 0, 1.0, -1.0).astype(np.float32)
     if kind == "impulse":
         x = np.zeros(n, dtype=np.float32)
         x[rng.integers(0, n)] = 5.0
@@ -39,7 +43,7 @@ class C12(Prop):
             "correlation) within an explicit float32 FFT error bound, and (integer data) exactly with the model after "
             "rounding. Non-trivial = length >= 3; distinct by (op, lengths, data kind).")
     assumptions = ["the transform pair itself (rocket-fft / pocketfft) is validated numerically, not proved"]
-    regimes_expected = ["rfft_ifft-even", "rfft_ifft-odd", "rfft_ifft-padded-after-longer", "fftconvolve", "correlate", "mspec"]
+    regimes_expected = ["rfft_ifft-even", "rfft_ifft-odd", "rfft_ifft-padded-after-longer", "fftconvolve", "correlate", "mspec", "mspec-zero-bins"]
     budget_s = (200, 1500)
 
     def gen(self, rng, tier):
@@ -61,6 +65,11 @@ class C12(Prop):
         for _ in range(40 if tier == "quick" else 300):
             cases.append({"op": "mspec", "n": rng.randint(1, 300), "dkind": rng.choice(("int", "dyn")),
                           "dseed": rng.randrange(1 << 30)})
+        # spectra with bins that are EXACTLY zero (constant, all-zero and alternating series of FFT-friendly
+        # length): the modulus of a zero bin is 0, not an error and not NaN
+        for n in (1, 2, 7, 16, 100, 128, 243, 256):
+            for dk in ("const", "zeros", "alt"):
+                cases.append({"op": "mspec", "n": n, "dkind": dk, "dseed": 1})
         return cases
 
     def corpus(self):
@@ -196,6 +205,8 @@ class C12(Prop):
         return None
 
     def regime(self, case, obs):
+        if case["op"] == "mspec" and case["dkind"] in ("const", "zeros", "alt"):
+            return "mspec-zero-bins"
         if case["op"] == "rfft_ifft":
             if case.get("order") == "descending" and obs.get("N", 0) != case["n"]:
                 return "rfft_ifft-padded-after-longer"
